@@ -1202,7 +1202,7 @@ class SshX509CertificateChain(ParsableBase, SshHostKeyBase):
         composer = self._compose_host_key_algorithm()
 
         composer.compose_numeric(len(self.issuer_certificates) + 1, 4)
-        for certificate in [self.public_key] + self.issuer_certificates:
+        for certificate in [self.public_key] + list(self.issuer_certificates):
             composer.compose_bytes(certificate.der, 4)
 
         composer.compose_numeric(len(self.ocsp_responses), 4)
@@ -1214,7 +1214,7 @@ class SshX509CertificateChain(ParsableBase, SshHostKeyBase):
     def _asdict(self):
         return collections.OrderedDict([
             ('key_type', self.host_key_algorithm.value.key_type.value),
-            ('certificate_chain', [self.public_key] + self.issuer_certificates),
+            ('certificate_chain', [self.public_key] + list(self.issuer_certificates)),
         ])
 
 
